@@ -446,6 +446,12 @@ func runC12(c *Ctx) {
 					bad = append(bad, l.String())
 				}
 			}
+			if IsCallTo(call, "strconv.FormatFloat") {
+				// a fixed precision rounds to nearest (can exceed the client's value); only the exact shortest form is accepted
+				if k, isK := ConstInt(call.Common().Args[2]); !isK || k != -1 {
+					bad = append(bad, "FormatFloat with a fixed precision (rounds to nearest)")
+				}
+			}
 			c.Check(len(bad) == 0 && fromParam, "C12.4", name, "truncating-path", call.Pos(),
 				"the formatted number derives from the duration only through integer division / truncating accessors",
 				"the formatted number is derived with non-truncating operations ("+strings.Join(bad, ", ")+"): the encoded deadline can exceed the client's")
